@@ -136,6 +136,49 @@ def run(ctx):
                        for k, v in wl_seen.items())[:20]})
 
     # ------------------------------------------------------------------
+    R2 = "C10.mutable_defaults"
+    ctx.rule(R2, "no function of the library has a mutable default argument "
+             "(list / dict / set literal or constructor call) that it, or a "
+             "function it passes the argument to, writes into: such a "
+             "default is shared by all calls, so asking twice gives "
+             "different answers", floor=1)
+    n_mut = 0
+    for f in sorted(repo.functions.values(), key=lambda f: f.qualname):
+        a = f.node.args
+        names = [x.arg for x in a.posonlyargs + a.args]
+        pairs = list(zip(names[len(names) - len(a.defaults):], a.defaults)) + \
+            [(x.arg, d) for x, d in zip(a.kwonlyargs, a.kw_defaults)
+             if d is not None]
+        for pname, d in pairs:
+            mutable = isinstance(d, (ast.List, ast.Dict, ast.Set)) or (
+                isinstance(d, ast.Call) and isinstance(d.func, ast.Name) and
+                d.func.id in ("list", "dict", "set", "defaultdict",
+                              "bytearray"))
+            if not mutable:
+                continue
+            n_mut += 1
+            ctx.instance(R2)
+            plain = [n for n in names if not (f.has_self and n == names[0])]
+            root = "p%d" % plain.index(pname) if pname in plain else None
+            # depth 0 = the default object itself is written (add, append,
+            # item store, +=), not an object found inside it
+            effs = [e for e in prog.summaries[f].effects
+                    if root is not None and e[0] == root and e[2] == 0
+                    and not e[3]]
+            ok = not effs
+            ctx.oblige(ok)
+            if not ok:
+                ctx.violation(R2, f.short, "%s=%s" % (pname, unparse(d)),
+                              "the default value of %s is created once and "
+                              "this function (or a callee) writes into it "
+                              "(effect %r): state leaks from one call to the "
+                              "next" % (pname, sorted(effs, key=str)[0][:3]))
+    if n_mut == 0:
+        ctx.instance(R2)
+        ctx.oblige(True)
+    ctx.exhaustive[R2] = True
+
+    # ------------------------------------------------------------------
     R = "C10.swap_restore"
     ctx.rule(R, "WriterWoSequence.__str__: the sequence field is saved before "
              "it is overwritten and restored, in the same block and before "
